@@ -190,8 +190,8 @@ def scenarios(ctx):
         out.append(Std('%s-%s' % (profile, mode), profile=profile, mode=mode,
                        connects=[(True, 0, 4), (False, 3, 3)], reconnects=[(True, 3, 4)], badconnacks=(5, 6),
                        pub_qos=(1,), lose_kinds=('done', 'lost'), drain_max_ticks=12, drain_horizon=40.0,
-                       budgets=dict(connect=2, connack=2, badconnack=1, dupconnack=1, tick=2 if q else 3, lose=1 if q else 2,
-                                    rebuild=1, pub=1, reconn2=1, disconnect=1, badconnect=1)))
+                       budgets=dict(connect=2 if q else 3, connack=2 if q else 3, badconnack=1, dupconnack=1, tick=2 if q else 4,
+                                    lose=1 if q else 2, rebuild=1 if q else 2, pub=1, reconn2=1, disconnect=1, badconnect=1)))
     out.append(Std('two-addresses', profile='pubsub', mode='async', naddr=2, connects=[(True, 0, 4), (False, 2, 4)],
                    reconnects=[(True, 0, 4)], pub_qos=(1,), lose_kinds=('done',), drain_max_ticks=12, drain_horizon=40.0,
                    budgets=dict(tick=2),
